@@ -36,7 +36,7 @@ func RunBubble(t *testing.T, c Case) (res *Result, stuck string, err error) {
 			if n < 1 {
 				n = 1
 			}
-			subj = groupStream{stream.Batch[int](e.mainSource(), time.Second, n)}
+			subj = groupStream{stream.Batch[int](e.mainSource(), time.Second, n), new([][]int)}
 		case "Merge1":
 			subj = itemStream{stream.Merge[int](e.mainSource())}
 		case "MergeN":
